@@ -174,6 +174,12 @@ def run(p, report, tier):
         carried = closure(c01.operand_names(S, ff.locs), edges) & fw
         report.add("R7.3", f.qual, f"operand of {site_id(S, 50)} depends on earlier picks", f"{f.file}:{S.lineno}",
                    bool(carried), detail=", ".join(sorted(carried)))
+        # the chosen pair is NaN afterwards: a NaN store indexed by the picks
+        nan_masks = [n for n in ast.walk(L) if isinstance(n, ast.Assign) and c01.is_nan_expr(n.value)
+                     and isinstance(n.targets[0], ast.Subscript) and (index_names(n.targets[0]) & (rnames | acc))]
+        report.add("R7.3", f.qual, f"chosen pair set to NaN after {site_id(S, 40)}", f"{f.file}:{S.lineno}", bool(nan_masks),
+                   detail="NaN store indexed by the picks" if nan_masks else
+                   "no NaN store indexed by the chosen pair: the pair can be selected again / is not NaN in later rows")
         # the mask covers all later steps: first index is a full slice
         for n in ast.walk(L):
             if isinstance(n, ast.Assign) and c01.is_nan_expr(n.value) and isinstance(n.targets[0], ast.Subscript):
